@@ -229,9 +229,27 @@ func readAvail(rd syncer.ChannelReader, want int, d time.Duration) ([]byte, bool
 			}
 		}
 	}()
-	select {
-	case <-done:
-	case <-time.After(d):
+	// give up only after a window without any progress (a loaded machine must not turn into "fewer bytes delivered")
+	window := d
+	if window < 4*time.Second {
+		window = 4 * time.Second
+	}
+	lastN, lastT := -1, time.Now()
+wait:
+	for {
+		select {
+		case <-done:
+			break wait
+		case <-time.After(20 * time.Millisecond):
+			mu.Lock()
+			n := len(buf)
+			mu.Unlock()
+			if n != lastN {
+				lastN, lastT = n, time.Now()
+			} else if time.Since(lastT) > window || (n == 0 && lastN == 0 && time.Since(lastT) > d && false) {
+				break wait
+			}
+		}
 	}
 	mu.Lock()
 	defer mu.Unlock()
@@ -372,7 +390,7 @@ func main() {
 			}
 			w.Start()
 			f.Feed(stream(cs.label, cs.l+1, cs.r, st.S)) // cache offset o holds stream byte o+1
-			if !f.WaitDrained(nil, 5*time.Second) {
+			if !f.WaitDrained(nil, 90*time.Second) {
 				hx.Fatal("cache population stalled")
 			}
 			f.CloseWith(io.EOF)
